@@ -17,6 +17,22 @@ SubstAnd(f, S, fuel) == [kinds |-> f.kinds, prios |-> f.prios, tags |-> f.tags, 
                          ors |-> [i \in DOMAIN f.ors |-> SubstOr(f.ors[i], S, fuel)] \o SubstRefs(f.refs, S, fuel)]
 SubstOr(fs, S, fuel) == [i \in DOMAIN fs |-> SubstAnd(fs[i], S, fuel)]
 
+\* As built (the recorded deviation, kept apart so that it explains nothing else): the saved clause is pasted as TEXT, in
+\* parentheses only if its expanded text contains " | " (B[name], computed by the model that also spells the text); pasted
+\* plain, its atoms join the and-group they land in, where kinds and priorities pool into one set each.
+RECURSIVE SubstOrB(_, _, _, _), SubstAndB(_, _, _, _), MergeRefsB(_, _, _, _, _)
+MergeF(f, g) == [kinds |-> f.kinds \o g.kinds, prios |-> f.prios \o g.prios, tags |-> f.tags \o g.tags, cr |-> f.cr \o g.cr,
+                 mr |-> f.mr \o g.mr, props |-> f.props \o g.props, texts |-> f.texts \o g.texts, files |-> f.files \o g.files,
+                 links |-> f.links \o g.links, ors |-> f.ors \o g.ors]
+MergeRefsB(acc, refs, S, B, fuel) ==
+  IF refs = << >> THEN acc
+  ELSE LET g == SubstOrB(S[refs[1]], S, B, fuel - 1)
+       IN MergeRefsB(IF B[refs[1]] \/ Len(g) # 1 THEN [acc EXCEPT !.ors = @ \o << g >>] ELSE MergeF(acc, g[1]), Tail(refs), S, B, fuel)
+SubstAndB(f, S, B, fuel) ==
+  MergeRefsB([kinds |-> f.kinds, prios |-> f.prios, tags |-> f.tags, cr |-> f.cr, mr |-> f.mr, props |-> f.props, texts |-> f.texts,
+              files |-> f.files, links |-> f.links, ors |-> [i \in DOMAIN f.ors |-> SubstOrB(f.ors[i], S, B, fuel)]], f.refs, S, B, fuel)
+SubstOrB(fs, S, B, fuel) == [i \in DOMAIN fs |-> SubstAndB(fs[i], S, B, fuel)]
+
 \* the law the property states: a reference filters like the saved clause, whatever surrounds it
 RefLaw(U, n, ctx, name, S, fuel) ==
    SatOr(U, n, SubstOr(<< [ctx EXCEPT !.refs = << name >>] >>, S, fuel))
